@@ -548,6 +548,14 @@ mod blocking {
     use super::*;
     use zbus::connection::socket::Channel;
 
+    struct Probe;
+    #[zbus::interface(name = "org.verif.Probe")]
+    impl Probe {
+        fn ready(&self) -> bool {
+            true
+        }
+    }
+
     pub fn run(tree: &J, shapes: &[J], rng: &mut model::Rng, rounds: u64, emit: &mut dyn FnMut(J)) {
         std::thread::spawn(|| {
             std::thread::sleep(std::time::Duration::from_secs(600));
@@ -556,19 +564,21 @@ mod blocking {
         });
         let (a, b) = Channel::pair();
         let guid = zbus::Guid::generate();
-        let server = zbus::blocking::connection::Builder::authenticated_socket(a, guid.clone()).unwrap().p2p().build().expect("server");
+        // Serving one (trivial) interface through the builder makes `build` wait until the object-server
+        // task has subscribed; without it the first call can arrive before the lazily started task
+        // listens and is lost (that race is C30's subject), and a blocking call would wait forever.
+        let server = zbus::blocking::connection::Builder::authenticated_socket(a, guid.clone())
+            .unwrap()
+            .p2p()
+            .serve_at("/verif_probe", Probe)
+            .expect("serve_at")
+            .build()
+            .expect("server");
         let client = zbus::blocking::connection::Builder::authenticated_socket(b, guid).unwrap().p2p().build().expect("client");
         let os = server.inner().object_server().clone();
         for r in tree["regs"].as_array().unwrap() {
             let k = r["iface"].as_u64().unwrap() as usize;
             zbus::block_on(generated::register(&os, k, r["path"].as_str().unwrap())).expect("register");
-        }
-        // wait until the object server answers (its task subscribes asynchronously)
-        let probe = zbus::blocking::Proxy::new(&client, "org.verif.Srv", "/", "org.freedesktop.DBus.Peer").expect("peer proxy");
-        for _ in 0..200 {
-            if probe.call_method("Ping", &()).is_ok() {
-                break;
-            }
         }
         let server_vals = |k: usize, path: &str| obj(zbus::block_on(generated::prop_values(&os, k, path)).expect("prop_values"));
         let mut lost_signals = 0u32;
